@@ -315,6 +315,12 @@ func (cs *autoGrowingCallFrameStack) SetSp(sp int) {
 		cs.segments[cs.segIdx] = nil
 		cs.segIdx--
 	}
+	if cs.segIdx < desiredSegIdx {
+		// sp lies on a segment boundary whose next segment is not allocated
+		// (SetSp never grows the stack): that is the full current segment
+		cs.segSp = FramesPerSegment
+		return
+	}
 	cs.segSp = desiredFramesInLastSeg
 }
 
